@@ -35,6 +35,7 @@ class C06(Check):
             "the class column, NSEC/NSEC3/CSYNC type lists, RRSIG type covered, $GENERATE templates and directive "
             "lines: the same record whatever the case (C06/keyword-case/*), lower-case spellings also as lex and "
             "parse model cases; "
+            "several independent parsers at the same time: rounds of 56 texts (abstract zone, $TTL, $GENERATE with ${offset,width,base} templates, $INCLUDE through a per-parser include FS of a file with records and a $GENERATE, records after it), each parsed alone and then all at once (8 goroutines with 20000..30000-step expansions, 4 goroutines re-parsing short texts meanwhile, one start barrier, GOMAXPROCS >= 4): outcome = outcome alone = denoted records (C06/concurrent/*), first concurrent outcome of the short texts as parse model cases; $GENERATE lines without TTL under $TTL / stated TTL / configured default, also in included files (C06/generate/omitted-ttl-not-inherited); "
             "120 $INCLUDE scenarios (before / file with optional origin argument / after, "
             "FS and no FS) against before ++ denote(file) ++ after; TTL texts and name completion against the "
             "library helpers. Model cases: the Coq denote on every abstract zone (case 'denote') must print the Go "
